@@ -313,7 +313,7 @@ VARIANTS += [
     V("C01", "benign: sorted JSON keys", API, "json.dump(self.to_dict(), f, indent=2)", "json.dump(self.to_dict(), f, indent=2, sort_keys=False)", None),
 ]
 VARIANTS += [
-    V("C09", "one-letter names skip the conversion", HELP, "    if name == \"_\" or naming_convention == NamingConvention.PYTHON:", "    if len(name) < 2 or naming_convention == NamingConvention.PYTHON:", "C09.CONVERT-SHAPE"),
+    V("C09", "one-letter names skip the conversion", HELP, "    if not name.strip(\"_\") or naming_convention == NamingConvention.PYTHON:", "    if len(name) < 2 or not name.strip(\"_\") or naming_convention == NamingConvention.PYTHON:", "C09.CONVERT-SHAPE"),
     V("C09", "class mode keeps the first part", HELP, "        return \"\".join(part[0].upper() + part[1:] for part in name_parts if part)", "        return name_parts[0] + \"\".join(part[0].upper() + part[1:] for part in name_parts[1:] if part)", "C09.CONVERT-SHAPE"),
     V("C09", "benign: capitalise helper expression", HELP, "        return \"\".join(part[0].upper() + part[1:] for part in name_parts if part)", "        return \"\".join([part[0].upper() + part[1:] for part in name_parts if part])", None),
 ]
@@ -377,4 +377,7 @@ VARIANTS += [
 ]
 VARIANTS += [
     V("C10", "api file named after the stem of the source directory again", "api_analyzer/cli/_cli.py", 'f"{src_dir_path.name}__api.json"', 'f"{src_dir_path.stem}__api.json"', "C10.API-NAME"),
+]
+VARIANTS += [
+    V("C09", "only the single underscore is left unconverted again", HELP, "    if not name.strip(\"_\") or naming_convention == NamingConvention.PYTHON:", "    if name == \"_\" or naming_convention == NamingConvention.PYTHON:", "C09.CONVERT-SHAPE"),
 ]
